@@ -25,6 +25,7 @@ def run(c):
             "the scripted mock cluster, (bgen n seed) notation for long payloads after checking the bytes)")
     c.trust("Coq 8.16.1 kernel + vm_compute (evaluation of the model on the harness cases)")
     c.trust("coq/Wire/Records.v value types and message-set encoder model (b-wire1, property C09a) used for the payload of a compressed wrapper")
+    c.trust("coq/Producer (b-producer, property C01): composition model and Markers.broker_side_data_only, used by c04_nothing_added_full")
     c.assume("compression libraries are external: decompress (compress x) = x is observed by the correspondence on every case, not proved")
     c.assume("the partitioner and the Key/Value encoders are user code: scripted oracles; time.Now() for messages without a timestamp "
              "is an oracle read off the decoded request and bounded by the wall clock around the call")
